@@ -26,6 +26,10 @@ structure Dump where
   disc  : List Nat := []
   lb    : List (Nat × Nat) := []
   ntf   : List Ntfn := []
+  memAt : List Nat := []            -- per notification: in-memory filter tip when it was received
+  pres  : String := ""              -- backlog request issued from inside the batch ("" = none)
+  pbest : Nat := 0
+  pbl   : List Node := []
 deriving Repr
 
 abbrev Fail := String × String
@@ -251,6 +255,29 @@ def replay1 (view : List Nat) : Ntfn → List Nat
   | .disc id h _ => if view.length = h + 1 && view.getLast? = some id then view.dropLast else view
 
 def replay (view : List Nat) (ns : List Ntfn) : List Nat := ns.foldl replay1 view
+
+/-- a connected event is observable only when the in-memory filter tip covers it -/
+def c19TipCovers (a : Dump) : List Fail :=
+  let bad := (a.ntf.zip a.memAt).any (fun p => match p.1 with
+    | .conn _ h _ => decide (p.2 < h)
+    | _ => false)
+  if bad then [("connected-before-tip", s!"a block was announced while the in-memory filter tip was still below it: events {repr a.ntf}, in-memory tip at each {a.memAt}")] else []
+
+/-- a subscriber that registers right after the `k`-th event of a write with a backlog request for
+height `h`: backlog and the remaining live events, replayed on the chain committed at `h`, must
+give the committed chain (no committed block skipped). -/
+def c19Probe (k h : Nat) (a : Dump) : List Fail :=
+  if a.pres == "" || a.pres == "none" then [] else
+  match a.fst with
+  | none => []
+  | some f =>
+    if a.pres != "ok" then [("midbatch-backlog-gap", s!"backlog from {h} refused in the middle of a write although blocks up to {f} are committed")] else
+    let view0 := replay (a.byh.take (h + 1)) (a.pbl.map (fun n => .conn n.id n.height 0))
+    let live := (a.ntf.filter (fun n => match n with | .conn .. => true | _ => false)).drop k
+    let view := replay view0 live
+    if view != a.byh.take (f + 1) then
+      [("midbatch-backlog-gap", s!"subscriber registering after event {k} of the write with height {h}: backlog {repr a.pbl} (best {a.pbest}) then live {repr live} give {view}, committed chain is {a.byh.take (f + 1)}")]
+    else []
 
 def committed (d : Dump) : List Nat := d.byh.take ((d.fst.getD 0) + 1)
 
